@@ -304,6 +304,14 @@ impl Nullable for NzU64 {
     const NONE: Self = NzU64(0);
 }
 
+/// a wrapped type whose none value is NOT its `Default` (and not all-zero bytes): "the default is none", "reads as none
+/// exactly when its bytes equal the designated none value" must hold for it as for the zero-none types
+#[derive(Clone, Copy, Debug, Default, PartialEq, Eq, borsh::BorshSerialize, borsh::BorshDeserialize, serde::Serialize, serde::Deserialize)]
+struct MaxNone(u64);
+impl Nullable for MaxNone {
+    const NONE: Self = MaxNone(u64::MAX);
+}
+
 fn run_c14(t: &[&str], out: &mut RunOut, line: &str) {
     // optaddr <tag: none|some> <32-byte hex>      optu64 <tag> <n>
     let (impl_line, err): (String, Option<String>) = match t[0] {
@@ -398,6 +406,18 @@ fn run_c14(t: &[&str], out: &mut RunOut, line: &str) {
             if n == 0 && bincode::serialize(&po).unwrap() != bincode::serialize(&None::<NzU64>).unwrap() { err = Some("Serde does not write none as `none` (null) in a binary format".into()); }
             let bde = bincode::deserialize::<PodOption<NzU64>>(&bincode::serialize(&o).unwrap());
             if bde.is_err() != reject { err = Some("binary serde deserialiser accepts some(none-value) or rejects a valid option".into()); }
+            {
+                // the same clauses for a type whose none value is u64::MAX and whose Default is 0
+                let m = MaxNone(n ^ u64::MAX);          // n == 0 <-> the none value
+                let pm = PodOption::from(m);
+                if pm.get().is_none() != (n == 0) { err = Some("a type with a non-zero none value: get() is none iff value == none value: violated".into()); }
+                if PodOption::<MaxNone>::default().get().is_some() { err = Some("the default is not none (for a wrapped type whose none value differs from its Default)".into()); }
+                let om = if t[1] == "some" { Some(m) } else { None };
+                let rm = PodOption::try_from(om);
+                if rm.is_err() != reject { err = Some("a type with a non-zero none value: the only rejected input is some(none-value): violated".into()); }
+                if let Ok(p) = rm { if p.get() != om { err = Some("a type with a non-zero none value: Option round trip is not the identity".into()); } }
+                if (n == 0) != (serde_json::to_string(&pm).unwrap() == "null") { err = Some("a type with a non-zero none value: serde none <-> null violated".into()); }
+            }
             out.stats.bump(&format!("optu64:{}:{}", t[1], if n == 0 { "noneval" } else { "val" }));
             (format!("get={} try={} mem={} json_null={} de={} bin={}", got.map_or("none".to_string(), |g| hex(&g.0.to_le_bytes())),
                 match r1 { Ok(p) => format!("ok:{}", hex(&borsh::to_vec(&p).unwrap())), Err(_) => "err".into() }, hex(&borsh_b), (json == "null") as u8,
